@@ -35,6 +35,14 @@ fn emit_case(out: &mut dyn Write, o: &Opts, c: &Case, hist: &mut BTreeMap<String
             writeln!(out, "{}", l).unwrap();
         }
     }
+    if (o.flags.contains('p') || o.flags.contains('t')) && oc.dm.is_some() && oc.plan != "-" && !oc.plan.is_empty() {
+        // statistic: does the plan the implementation used satisfy the decidable side condition of the
+        // planner / encoder coupling theorems (DM/Props/C18Couple.lean)? evaluated by the Lean driver
+        let (d, m, f) = (c.data.clone(), c.macros, c.fnc1);
+        if let Ok((_, body)) = crate::util::guarded(move || vh::macro_prefix(&d, m, f)) {
+            writeln!(out, "S planok {} {} => -", if body.is_empty() { "-".to_string() } else { hex(&body) }, oc.plan).unwrap();
+        }
+    }
     if oc.api_checked > 0 {
         *hist.entry("public_entry_points_compared".into()).or_insert(0) += oc.api_checked;
     }
